@@ -393,6 +393,58 @@ func genSQL(repo, out string) {
 		}
 		fmt.Fprintf(&sb, "\n/-- the database calls of a reorg rollback (Task.Delete, Integration.Delete): statement <- bound arguments -/\ndef rollbackCalls : List String := %s\n", leanStrList(calls))
 	}
+	// ---- the statements by which a task reads and records its position, and the pruning of old positions:
+	// Task.latest, Task.latestDependency, Task.update, PruneTask — same rendering
+	{
+		var calls []string
+		if f := parse(repo, "shovel/task.go"); f != nil {
+			for _, want := range []string{"latest", "latestDependency", "update", "PruneTask"} {
+				for _, d := range f.Decls {
+					fd, ok := d.(*ast.FuncDecl)
+					if !ok || fd.Body == nil || fd.Name.Name != want {
+						continue
+					}
+					if (fd.Recv == nil) != (want == "PruneTask") {
+						continue
+					}
+					consts := map[string]string{}
+					ast.Inspect(fd.Body, func(n ast.Node) bool {
+						if vs, ok := n.(*ast.ValueSpec); ok {
+							for i, nm := range vs.Names {
+								if i < len(vs.Values) {
+									if bl, ok := vs.Values[i].(*ast.BasicLit); ok && bl.Kind == token.STRING {
+										consts[nm.Name] = strings.Join(strings.Fields(strings.Trim(bl.Value, "`\"")), " ")
+									}
+								}
+							}
+						}
+						return true
+					})
+					ast.Inspect(fd.Body, func(n ast.Node) bool {
+						c, ok := n.(*ast.CallExpr)
+						if !ok {
+							return true
+						}
+						sel, ok := c.Fun.(*ast.SelectorExpr)
+						if !ok || src(sel.X) != "pg" || len(c.Args) < 2 {
+							return true
+						}
+						stmt := src(c.Args[1])
+						if v, ok := consts[stmt]; ok {
+							stmt = v
+						}
+						var args []string
+						for _, a := range c.Args[2:] {
+							args = append(args, src(a))
+						}
+						calls = append(calls, fmt.Sprintf("%s %s: %s <- %s", want, sel.Sel.Name, stmt, strings.Join(args, ", ")))
+						return true
+					})
+				}
+			}
+		}
+		fmt.Fprintf(&sb, "\n/-- the database calls by which a task reads / records its position, and the pruning statement -/\ndef positionCalls : List String := %s\n", leanStrList(calls))
+	}
 	sb.WriteString("\nend Shovel.Gen.Sql\n")
 	writeIfChanged(filepath.Join(out, "Sql.lean"), sb.String())
 }
